@@ -243,16 +243,17 @@ def _strip(t):
     return t
 
 
-def inplace_rule(prog, chk):
+def inplace_rule(prog, chk, rule="R5.3", names=("crypto_scalarmult_curve25519_ref10", "crypto_scalarmult_curve25519_sandy2x"),
+                 out=0, inputs=(1, 2), what="the scalar and the point", floor=1):
     """R5.3: inputs are consumed before the output is touched"""
     cg = prog.callgraph()
     rr = cg.ranges()
     n = 0
-    for name in ("crypto_scalarmult_curve25519_ref10", "crypto_scalarmult_curve25519_sandy2x"):
+    for name in names:
         fn = prog.fn(name)
         if fn is None:
             continue            # backend not compiled in this configuration
-        Q, ins = ("arg", 0), (("arg", 1), ("arg", 2))
+        Q, ins = ("arg", out), tuple(("arg", k) for k in inputs)
         for p in cm.paths(prog, fn):
             if p.kind != "ret":
                 continue
@@ -277,10 +278,10 @@ def inplace_rule(prog, chk):
                 continue
             n += 1
             ok = last_r.idx <= first_w.idx
-            chk.ob("R5.3", fn, "every read of the scalar and the point precedes the first write through q", ok,
-                   loc=fn.loc(first_w.iid), detail="" if ok else "q is written at %s, an input is still read at %s"
-                   % (fn.loc(first_w.iid), fn.loc(last_r.iid)), path=None if ok else p, key="R5.3 %s" % name)
-    chk.floor("R5.3", "returning paths of the X25519 ladder entries that write q", n, 1)
+            chk.ob(rule, fn, "every read of %s precedes the first write through %s" % (what, fn.params[out]["name"]), ok,
+                   loc=fn.loc(first_w.iid), detail="" if ok else "%s is written at %s, an input is still read at %s"
+                   % (fn.params[out]["name"], fn.loc(first_w.iid), fn.loc(last_r.iid)), path=None if ok else p, key="%s %s" % (rule, name))
+    chk.floor(rule, "returning paths of %s that write the output" % ", ".join(names), n, floor)
 
 
 def clamp_rule(ctx, prog, chk):
